@@ -79,6 +79,9 @@ Proof.
     destruct (i =? 0); [reflexivity|]. apply IH. lia.
 Qed.
 
+Lemma znth_neg (l : list oq) i : i < 0 -> znth l i = None.
+Proof. intro H. unfold znth, zget. destruct (i <? 0) eqn:E; [reflexivity|lia]. Qed.
+
 Lemma zlen_skipn {A} (k : nat) (l : list A) : zlen (skipn k l) = Z.max 0 (zlen l - Z.of_nat k).
 Proof. unfold zlen. rewrite skipn_length. lia. Qed.
 Lemma zlen_firstn {A} (k : nat) (l : list A) : zlen (firstn k l) = Z.min (Z.of_nat k) (zlen l).
@@ -114,6 +117,23 @@ Proof.
   intros Hw Hc. unfold window, zslice.
   replace (Z.max 0 (c - wl + 1)) with (c - wl + 1) by lia.
   rewrite zlen_firstn, zlen_skipn. lia.
+Qed.
+
+(* the window at ANY cutoff position c >= -1, complete or cut by the start of the series: it holds
+   the positions lo .. c with lo = max 0 (c - wl + 1) *)
+Lemma window_gen_len ys c wl : 1 <= wl -> -1 <= c < zlen ys ->
+  zlen (window ys c wl) = c + 1 - Z.max 0 (c - wl + 1).
+Proof.
+  intros Hw Hc. unfold window, zslice. rewrite zlen_firstn, zlen_skipn. lia.
+Qed.
+Lemma window_gen_znth ys c wl i : 1 <= wl -> -1 <= c < zlen ys ->
+  0 <= i < c + 1 - Z.max 0 (c - wl + 1) ->
+  znth (window ys c wl) i = znth ys (Z.max 0 (c - wl + 1) + i).
+Proof.
+  intros Hw Hc Hi. unfold window, zslice, znth.
+  rewrite zget_firstn by lia. rewrite zget_skipn by lia.
+  replace (Z.of_nat (Z.to_nat (Z.max 0 (c - wl + 1))) + i) with (Z.max 0 (c - wl + 1) + i) by lia.
+  reflexivity.
 Qed.
 
 (* the window at a moved cutoff only looks at the observations up to that cutoff *)
@@ -367,21 +387,23 @@ Definition seasonal_mean_spec (sp wl : Z) (w : list oq) (h : Z) : oq :=
 Lemma zlen_repeat {A} (x : A) k : zlen (repeat x k) = Z.of_nat k.
 Proof. unfold zlen. rewrite repeat_length. reflexivity. Qed.
 
-Lemma kernel_seasonal_mean sp wl w hs :
+Lemma kernel_seasonal_mean_aux sp wl w hs :
   1 < sp -> zlen w = wl -> sorted_lt hs -> all_pos hs ->
-  kernel SMean sp wl w hs = Ok (map (seasonal_mean_spec sp wl w) hs).
+  kernel SMean sp w hs = Ok (map (seasonal_mean_spec sp wl w) hs).
 Proof.
   intros Hsp Hlen Hsorted Hpos. pose proof (zlen_nonneg w) as Hw0. unfold kernel.
   destruct ((zlen w =? 0) || all_nan w) eqn:E0.
   - apply empty_or_nan_all_nan in E0. unfold const_all. f_equal. apply map_ext. intro h.
     unfold seasonal_mean_spec, nanmean. rewrite somes_sel_nan by exact E0. reflexivity.
-  - destruct (sp =? 1) eqn:E1; [lia|]. cbv zeta.
+  - destruct (sp =? 1) eqn:E1; [lia|]. cbv zeta. rewrite Hlen.
     set (pad := if 0 <? wl mod sp then sp - wl mod sp else 0).
     assert (Hpad : pad + wl = ceil_div wl sp * sp) by (apply pad_rows; lia).
     assert (Hpad0 : 0 <= pad < sp).
     { subst pad. pose proof (Z.mod_pos_bound wl sp ltac:(lia)). destruct (0 <? wl mod sp) eqn:Epad; lia. }
     assert (Hrows : 0 <= ceil_div wl sp) by nia.
     rewrite zlen_app, zlen_repeat, Hlen, Z2Nat.id by lia.
+    assert (Hrw : (pad + wl) / sp = ceil_div wl sp) by (rewrite Hpad; apply Z.div_mul; lia).
+    rewrite Hrw.
     destruct (pad + wl =? ceil_div wl sp * sp) eqn:E2; [|lia].
     rewrite steps_vals_spec; try assumption; try lia.
     2:{ rewrite zlen_map. pose proof (zrange_length1 0 sp). unfold zlen. lia. }
@@ -400,15 +422,36 @@ Proof.
     unfold congb. f_equal. f_equal. lia.
 Qed.
 
+(* on ANY window - complete, or cut by the start of the series - whatever its length *)
+Lemma kernel_seasonal_mean sp w hs :
+  1 < sp -> sorted_lt hs -> all_pos hs ->
+  kernel SMean sp w hs = Ok (map (seasonal_mean_spec sp (zlen w) w) hs).
+Proof. intros Hsp Hs Hp. apply kernel_seasonal_mean_aux; [exact Hsp|reflexivity|exact Hs|exact Hp]. Qed.
+
+(* seasonal last on a window of at most one season (shorter when cut by the start of the series):
+   step h reads the window position congruent to the target among the last sp positions before
+   the target, i.e. zlen w - sp + (h - 1) mod sp; when the window does not reach back that far
+   (negative position) no same-season observation exists and the forecast is NaN *)
 Lemma kernel_seasonal_last sp w hs :
-  1 < sp -> zlen w = sp -> sorted_lt hs -> all_pos hs ->
-  kernel SLast sp sp w hs = Ok (map (fun h => znth w ((h - 1) mod sp)) hs).
+  1 < sp -> zlen w <= sp -> sorted_lt hs -> all_pos hs ->
+  kernel SLast sp w hs = Ok (map (fun h => znth w (zlen w - sp + (h - 1) mod sp)) hs).
 Proof.
-  intros Hsp Hlen Hsorted Hpos. unfold kernel.
+  intros Hsp Hlen Hsorted Hpos. pose proof (zlen_nonneg w) as Hw0. unfold kernel.
   destruct ((zlen w =? 0) || all_nan w) eqn:E0.
   - apply empty_or_nan_all_nan in E0. unfold const_all. f_equal. apply map_ext. intro h.
     rewrite all_nan_znth by exact E0. reflexivity.
-  - destruct (sp =? 1) eqn:E1; [lia|]. apply steps_vals_spec; try assumption; lia.
+  - destruct (sp =? 1) eqn:E1; [lia|]. cbv zeta.
+    rewrite steps_vals_spec; try assumption; try lia.
+    + f_equal. apply map_ext. intro h.
+      pose proof (Z.mod_pos_bound (h - 1) sp ltac:(lia)) as Hj.
+      destruct (zlen w <? sp) eqn:E2.
+      * rewrite znth_app by lia. rewrite zlen_repeat, Z2Nat.id by lia.
+        destruct ((h - 1) mod sp <? sp - zlen w) eqn:E3.
+        -- rewrite all_nan_znth by apply all_nan_repeat. symmetry. apply znth_neg. lia.
+        -- f_equal. lia.
+      * f_equal. lia.
+    + destruct (zlen w <? sp) eqn:E2; [|lia].
+      rewrite zlen_app, zlen_repeat, Z2Nat.id by lia. lia.
 Qed.
 
 Lemma last_znth : forall (l : list oq), last l None = znth l (zlen l - 1).
@@ -425,14 +468,14 @@ Qed.
 Lemma hd_znth (l : list oq) : hd None l = znth l 0.
 Proof. destruct l; reflexivity. Qed.
 
-Lemma kernel_last w wl hs : kernel SLast 1 wl w hs = Ok (map (fun _ => znth w (zlen w - 1)) hs).
+Lemma kernel_last w hs : kernel SLast 1 w hs = Ok (map (fun _ => znth w (zlen w - 1)) hs).
 Proof.
   unfold kernel. destruct ((zlen w =? 0) || all_nan w) eqn:E0.
   - apply empty_or_nan_all_nan in E0. rewrite all_nan_znth by exact E0. reflexivity.
   - cbn [Z.eqb Pos.eqb]. rewrite last_znth. reflexivity.
 Qed.
 
-Lemma kernel_mean w wl hs : kernel SMean 1 wl w hs = Ok (map (fun _ => nanmean w) hs).
+Lemma kernel_mean w hs : kernel SMean 1 w hs = Ok (map (fun _ => nanmean w) hs).
 Proof.
   unfold kernel. destruct ((zlen w =? 0) || all_nan w) eqn:E0; [|reflexivity].
   apply empty_or_nan_all_nan in E0. unfold const_all. f_equal. apply map_ext. intros _.
@@ -469,24 +512,33 @@ Proof.
   field. apply inject_Z_nonzero. lia.
 Qed.
 
-Lemma kernel_drift sp wl w a b hs :
-  2 <= wl -> zlen w = wl -> znth w 0 = Some a -> znth w (wl - 1) = Some b ->
-  kernel SDrift sp wl w hs = Ok (map (fun h => Some (drift_value wl a b h)) hs).
+Lemma kernel_drift sp w a b hs :
+  2 <= zlen w -> znth w 0 = Some a -> znth w (zlen w - 1) = Some b ->
+  kernel SDrift sp w hs = Ok (map (fun h => Some (drift_value (zlen w) a b h)) hs).
 Proof.
-  intros Hwl Hlen Ha Hb. unfold kernel.
+  intros Hwl Ha Hb. unfold kernel.
   destruct ((zlen w =? 0) || all_nan w) eqn:E0.
   - apply empty_or_nan_all_nan in E0. rewrite all_nan_znth in Ha by exact E0. discriminate.
-  - destruct (wl =? 1) eqn:E1; [lia|]. rewrite hd_znth, last_znth, Hlen, Ha, Hb. reflexivity.
+  - destruct (zlen w <? 2) eqn:E1; [lia|]. rewrite hd_znth, last_znth, Ha, Hb. reflexivity.
 Qed.
 
-Lemma kernel_drift_missing_end sp wl w hs :
-  2 <= wl -> zlen w = wl -> all_nan w = false -> (znth w 0 = None \/ znth w (wl - 1) = None) ->
-  kernel SDrift sp wl w hs = Err.
+Lemma kernel_drift_missing_end sp w hs :
+  2 <= zlen w -> all_nan w = false -> (znth w 0 = None \/ znth w (zlen w - 1) = None) ->
+  kernel SDrift sp w hs = Err.
 Proof.
-  intros Hwl Hlen Hnan H. unfold kernel.
+  intros Hwl Hnan H. unfold kernel.
   destruct (zlen w =? 0) eqn:E0; [lia|]. rewrite Hnan. cbn [orb].
-  destruct (wl =? 1) eqn:E1; [lia|]. rewrite hd_znth, last_znth, Hlen.
+  destruct (zlen w <? 2) eqn:E1; [lia|]. rewrite hd_znth, last_znth.
   destruct H as [H|H]; rewrite H; [reflexivity|]. destruct (znth w 0); reflexivity.
+Qed.
+
+(* no line through fewer than two points: NaN for every step *)
+Lemma kernel_drift_one_point sp w hs : zlen w <= 1 ->
+  kernel SDrift sp w hs = Ok (map (fun _ => None) hs).
+Proof.
+  intro H. unfold kernel, const_all.
+  destruct ((zlen w =? 0) || all_nan w); [reflexivity|].
+  destruct (zlen w <? 2) eqn:E; [reflexivity|lia].
 Qed.
 
 (* ---- from the kernel to predict -------------------------------------------------------------------- *)
@@ -509,7 +561,7 @@ Proof. destruct r as [x|]; [|reflexivity]. cbn [rconcat rapp]. rewrite app_nil_r
    observation *)
 Lemma predict_oos s sp wl ys fh : all_pos fh ->
   naive_predict_wl s sp wl ys fh =
-  match fh with [] => Ok [] | _ => kernel s sp wl (window ys (zlen ys - 1) wl) fh end.
+  match fh with [] => Ok [] | _ => kernel s sp (window ys (zlen ys - 1) wl) fh end.
 Proof.
   intro Hpos. unfold naive_predict_wl.
   rewrite (filter_none (fun r => r <=? 0) fh) by (intros x Hx; specialize (Hpos x Hx); lia).
@@ -532,6 +584,96 @@ Proof.
   replace (zlen ys - 2 + r) with (zlen ys - 1 + r - 1) by lia. reflexivity.
 Qed.
 
+(* an in-sample step is one kernel call, for step 1, on the window ending just before the target *)
+Lemma in_sample_kernel s sp wl ys r : r <= 0 ->
+  naive_predict_wl s sp wl ys [r] = kernel s sp (window ys (zlen ys - 2 + r) wl) [1].
+Proof.
+  intro Hr. unfold naive_predict_wl. cbn [filter].
+  destruct (r <=? 0) eqn:E1; [|lia]. destruct (0 <? r) eqn:E2; [lia|].
+  cbn [map app]. apply rconcat_single.
+Qed.
+
+Lemma all_pos_one : all_pos [1].
+Proof. intros h [<-|[]]. lia. Qed.
+
+Lemma sel_true {A} P : (forall p, P p = true) -> forall (l : list A) i, sel P i l = l.
+Proof.
+  intro H. induction l as [|x l IH]; intro i; [reflexivity|]. cbn [sel]. rewrite H, IH. reflexivity.
+Qed.
+
+(* ---- in-sample forecasts, also where the window is cut by the start of the series ------------------
+   q = target position, the forecast is made from the observations at positions lo .. q-1,
+   lo = max 0 (q - wl) *)
+
+(* last / seasonal last (window length sp >= 1): the observation one season before the target;
+   NaN while no observation of the target's season exists *)
+Lemma in_sample_last ys sp r q : 1 <= sp -> r <= 0 -> q = zlen ys - 1 + r -> 0 <= q ->
+  naive_predict_wl SLast sp sp ys [r] = Ok [if q <? sp then None else znth ys (q - sp)].
+Proof.
+  intros Hsp Hr Eq Hq. rewrite in_sample_kernel by exact Hr.
+  replace (zlen ys - 2 + r) with (q - 1) by lia.
+  pose proof (window_gen_len ys (q - 1) sp ltac:(lia) ltac:(lia)) as Hlen.
+  destruct (Z.eq_dec sp 1) as [->|Hne].
+  - rewrite kernel_last. cbn [map]. f_equal. f_equal.
+    destruct (q <? 1) eqn:E.
+    + apply znth_neg. lia.
+    + rewrite window_gen_znth by lia. f_equal. lia.
+  - rewrite kernel_seasonal_last; try lia; [|exact I|exact all_pos_one].
+    cbn [map]. f_equal. f_equal.
+    replace ((1 - 1) mod sp) with 0 by (rewrite Z.sub_diag, Z.mod_0_l; lia).
+    destruct (q <? sp) eqn:E.
+    + apply znth_neg. lia.
+    + rewrite window_gen_znth by lia. f_equal. lia.
+Qed.
+
+(* mean / seasonal mean: the mean of the non-missing observations among positions lo .. q-1 that
+   are congruent to the target (all of them for sp = 1); NaN if there is none *)
+Lemma in_sample_mean ys sp wl r q lo : 1 <= sp -> 1 <= wl -> r <= 0 ->
+  q = zlen ys - 1 + r -> 0 <= q -> lo = Z.max 0 (q - wl) ->
+  naive_predict_wl SMean sp wl ys [r] =
+  Ok [nanmean (sel (fun p => congb sp p q) lo (zslice ys lo q))].
+Proof.
+  intros Hsp Hwl Hr Eq Hq Elo. rewrite in_sample_kernel by exact Hr.
+  assert (Hw : window ys (zlen ys - 2 + r) wl = zslice ys lo q).
+  { unfold window. f_equal; lia. }
+  assert (Hlen : zlen (zslice ys lo q) = q - lo).
+  { rewrite <- Hw. rewrite window_gen_len by lia. lia. }
+  rewrite Hw.
+  destruct (Z.eq_dec sp 1) as [->|Hne].
+  - rewrite kernel_mean. cbn [map]. rewrite sel_true; [reflexivity|].
+    intro p. unfold congb. rewrite Z.mod_1_r. reflexivity.
+  - rewrite kernel_seasonal_mean; try lia; [|exact I|exact all_pos_one].
+    cbn [map]. unfold seasonal_mean_spec. f_equal. f_equal. apply nanmean_somes. f_equal.
+    apply sel_ext. intros k Hk. cbv beta. unfold congb. f_equal. f_equal. lia.
+Qed.
+
+(* drift: the line through the first and the last available point, (lo, y[lo]) and (q-1, y[q-1]),
+   evaluated at q; NaN when fewer than two points are available *)
+Lemma in_sample_drift ys sp wl r q lo : 1 <= wl -> r <= 0 ->
+  q = zlen ys - 1 + r -> 0 <= q -> lo = Z.max 0 (q - wl) ->
+  (q - lo <= 1 -> naive_predict_wl SDrift sp wl ys [r] = Ok [None]) /\
+  (forall a b, 2 <= q - lo -> znth ys lo = Some a -> znth ys (q - 1) = Some b ->
+     naive_predict_wl SDrift sp wl ys [r] = Ok [Some (drift_value (q - lo) a b 1)] /\
+     (drift_value (q - lo) a b 1 == line lo (q - 1) a b q)%Q).
+Proof.
+  intros Hwl Hr Eq Hq Elo. rewrite in_sample_kernel by exact Hr.
+  assert (Hlen : zlen (window ys (zlen ys - 2 + r) wl) = q - lo).
+  { rewrite window_gen_len by lia. lia. }
+  split.
+  - intro H1. rewrite kernel_drift_one_point by lia. reflexivity.
+  - intros a b H2 Ha Hb. split.
+    + rewrite (kernel_drift sp _ a b [1]).
+      * rewrite Hlen. reflexivity.
+      * lia.
+      * rewrite window_gen_znth by lia. rewrite <- Ha. f_equal. lia.
+      * rewrite Hlen. rewrite window_gen_znth by lia. rewrite <- Hb. f_equal. lia.
+    + unfold drift_value, line.
+      replace (q - lo - 1) with (q - 1 - lo) by lia.
+      replace (q - lo) with (q - 1 - lo + 1) by lia.
+      rewrite inject_Z_plus. change (inject_Z 1) with 1%Q.
+      field. apply inject_Z_nonzero. lia.
+Qed.
+
 (* ---- window length resolution (NaiveForecaster.fit) ------------------------------------------------ *)
 
 Definition documented_wl (s : strategy) (sp : Z) (wlo : option Z) (n : Z) : Z :=
@@ -539,11 +681,23 @@ Definition documented_wl (s : strategy) (sp : Z) (wlo : option Z) (n : Z) : Z :=
   | SLast => if sp =? 1 then 1 else sp
   | _ => match wlo with Some w => w | None => n end
   end.
-Definition documented_reject (s : strategy) (sp : Z) (wlo : option Z) : Prop :=
-  match s, wlo with
-  | SMean, Some w => sp <> 1 /\ w < sp
-  | SDrift, Some w => w = 1
-  | _, _ => False
+(* parameter domains, for the parameters the strategy reads ("last" ignores window_length,
+   "drift" ignores sp) *)
+Definition wl_ok (wlo : option Z) : Prop := match wlo with Some w => 1 <= w | None => True end.
+Definition valid_params (s : strategy) (sp : Z) (wlo : option Z) : Prop :=
+  match s with
+  | SLast => 1 <= sp
+  | SMean => 1 <= sp /\ wl_ok wlo
+  | SDrift => wl_ok wlo
+  end.
+(* the documented rejections, in terms of the window the forecaster would use (the given
+   window_length, or by default the whole training series): seasonal mean with a window shorter
+   than one season; drift with a window of a single point *)
+Definition documented_reject (s : strategy) (sp : Z) (wlo : option Z) (n : Z) : Prop :=
+  match s with
+  | SLast => False
+  | SMean => sp <> 1 /\ documented_wl s sp wlo n < sp
+  | SDrift => documented_wl s sp wlo n = 1
   end.
 
 Ltac split_ifs :=
@@ -553,19 +707,19 @@ Ltac split_ifs :=
          end.
 
 Lemma resolve_ok s sp wlo n w : resolve_wl s sp wlo n = Ok w ->
-  w = documented_wl s sp wlo n /\ w <= n /\ ~ documented_reject s sp wlo.
+  w = documented_wl s sp wlo n /\ w <= n /\ valid_params s sp wlo /\ ~ documented_reject s sp wlo n.
 Proof.
-  unfold resolve_wl, documented_wl, documented_reject. intro H.
-  destruct s; destruct wlo as [x|]; cbn in *; split_ifs; try discriminate;
+  unfold resolve_wl, documented_wl, documented_reject, valid_params, wl_ok, wl_invalid. intro H.
+  destruct s; destruct wlo as [x|]; cbn [documented_wl] in *; split_ifs; try discriminate;
     inversion H; subst; repeat split; try lia; try tauto.
 Qed.
 
 Lemma resolve_err s sp wlo n : resolve_wl s sp wlo n = Err <->
-  (documented_reject s sp wlo \/ n < documented_wl s sp wlo n).
+  (~ valid_params s sp wlo \/ documented_reject s sp wlo n \/ n < documented_wl s sp wlo n).
 Proof.
-  unfold resolve_wl, documented_wl, documented_reject.
-  destruct s; destruct wlo as [x|]; cbn; split_ifs; split; intro H; try discriminate;
-    try reflexivity; try (destruct H as [H|H]; try tauto; lia); try (right; lia); try (left; lia).
+  unfold resolve_wl, documented_reject, valid_params, wl_ok, wl_invalid, documented_wl.
+  destruct s; destruct wlo as [x|]; split_ifs; split; intro H; try discriminate;
+    try reflexivity; try lia; exfalso; lia.
 Qed.
 
 (* ---- the property statements -------------------------------------------------------------------------- *)
@@ -579,9 +733,9 @@ Lemma naive_last ys wlo fh : 1 <= zlen ys -> all_pos fh ->
   naive_predict SLast 1 wlo ys fh = Ok (map (fun _ => znth ys (zlen ys - 1)) fh).
 Proof.
   intros Hn Hpos. unfold naive_predict.
-  destruct (resolve_wl SLast 1 wlo (zlen ys)) as [w|] eqn:Hres.
-  2:{ apply resolve_err in Hres. cbn in Hres. destruct Hres as [[]|H]. lia. }
-  apply resolve_ok in Hres. destruct Hres as [Hw _]. cbn in Hw. subst w.
+  assert (Hres : resolve_wl SLast 1 wlo (zlen ys) = Ok 1).
+  { unfold resolve_wl. cbn [Z.eqb Pos.eqb]. destruct (zlen ys <? 1) eqn:E; [lia|reflexivity]. }
+  rewrite Hres.
   rewrite predict_oos by exact Hpos. apply map_nonempty_match. intros _.
   rewrite kernel_last. destruct (window_last ys 1 ltac:(lia)) as [_ Hl]. rewrite Hl.
   rewrite window_znth by lia. f_equal. apply map_ext. intros _. f_equal; lia.
@@ -621,15 +775,16 @@ Lemma naive_seasonal_last ys sp wlo fh : 1 < sp <= zlen ys -> sorted_lt fh -> al
   Ok (map (fun h => znth ys (last_same_season (zlen ys) sp h)) fh).
 Proof.
   intros Hsp Hsorted Hpos. unfold naive_predict.
-  destruct (resolve_wl SLast sp wlo (zlen ys)) as [w|] eqn:Hres.
-  2:{ apply resolve_err in Hres. cbn in Hres. destruct (sp =? 1) eqn:E; destruct Hres as [[]|H]; lia. }
-  apply resolve_ok in Hres. destruct Hres as [Hw _]. cbn in Hw.
-  destruct (sp =? 1) eqn:E; [lia|]. subst w.
+  assert (Hres : resolve_wl SLast sp wlo (zlen ys) = Ok sp).
+  { unfold resolve_wl. destruct (sp =? 1) eqn:E1; [lia|]. destruct (sp <? 1) eqn:E2; [lia|].
+    destruct (zlen ys <? sp) eqn:E3; [lia|reflexivity]. }
+  rewrite Hres.
   rewrite predict_oos by exact Hpos. apply map_nonempty_match. intros _.
   destruct (window_last ys sp ltac:(lia)) as [_ Hl].
   rewrite kernel_seasonal_last; try assumption; try lia.
-  f_equal. apply map_ext_in. intros h Hin.
+  f_equal. apply map_ext_in. intros h Hin. rewrite Hl.
   pose proof (Z.mod_pos_bound (h - 1) sp ltac:(lia)) as B.
+  replace (sp - sp + (h - 1) mod sp) with ((h - 1) mod sp) by lia.
   rewrite window_znth by lia. f_equal. unfold last_same_season.
   rewrite ceil_div_succ by lia. pose proof (Z.div_mod (h - 1) sp ltac:(lia)). lia.
 Qed.
@@ -659,7 +814,7 @@ Proof.
   apply resolve_ok in Hres. destruct Hres as [_ [Hle _]].
   rewrite predict_oos by exact Hpos. apply map_nonempty_match. intros _.
   destruct (window_last ys wl ltac:(lia)) as [Hw Hl].
-  rewrite kernel_seasonal_mean; try assumption; try lia.
+  rewrite (kernel_seasonal_mean_aux sp wl); try assumption; try lia.
   f_equal. apply map_ext. intro h. unfold seasonal_mean_spec, seasonal_mean_series. cbv zeta.
   rewrite Hw. f_equal. apply sel_ext. intros k Hk. unfold congb. do 2 f_equal. lia.
 Qed.
@@ -676,9 +831,11 @@ Proof.
   - unfold naive_predict. rewrite Hres. apply resolve_ok in Hres. destruct Hres as [_ [Hle _]].
     rewrite predict_oos by exact Hpos. apply map_nonempty_match. intros _.
     destruct (window_last ys wl ltac:(lia)) as [_ Hl].
-    apply kernel_drift; try assumption.
+    rewrite (kernel_drift sp _ a b fh).
+    + rewrite Hl. reflexivity.
+    + lia.
     + rewrite window_znth by lia. rewrite <- Ha. f_equal; lia.
-    + rewrite window_znth by lia. rewrite <- Hb. f_equal; lia.
+    + rewrite Hl. rewrite window_znth by lia. rewrite <- Hb. f_equal; lia.
   - intro h. rewrite drift_value_on_line by lia. unfold line.
     replace (wl - 1 + h - 0) with (zlen ys - 1 + h - (zlen ys - wl)) by lia.
     replace (wl - 1 - 0) with (zlen ys - 1 - (zlen ys - wl)) by lia. reflexivity.
